@@ -341,21 +341,23 @@ def finish(run, rule, checker_cmd, extra_trusted=(), exhaustive=False, level_not
 
 
 def regen_params(run=None):
-    """Translator part: regenerates coq/Gen/Params.v from the running code (level table, reserved names)."""
+    """Translator part: regenerates coq/Gen/Params.v (level table, reserved names) and coq/Gen/Schema.v (plugin
+    registry with the flattened struct fields and their tags, rotation table, property names) from the running code."""
     tmp = scratch_dir('gen')
     try:
-        rc, out = run_impl('gen', '-', tmp + '/Params.v')
-        if rc != 0:
-            if run is not None:
-                run.add_violation('gen-failed', 'implrun gen failed: ' + out[-500:], [out[-2000:]], no_input=True)
-            return False
-        new = open(tmp + '/Params.v').read()
-        dst = COQ + '/Gen/Params.v'
-        old = open(dst).read() if os.path.exists(dst) else ''
-        if new != old:
-            open(dst, 'w').write(new)
-            if run is not None:
-                run.notes.append('Gen/Params.v changed with respect to the committed copy; dependent proofs were re-checked')
+        for fam, name in (('gen', 'Params.v'), ('gen-schema', 'Schema.v')):
+            rc, out = run_impl(fam, '-', tmp + '/' + name)
+            if rc != 0:
+                if run is not None:
+                    run.add_violation('gen-failed', 'implrun %s failed: %s' % (fam, out[-500:]), [out[-2000:]], no_input=True)
+                return False
+            new = open(tmp + '/' + name).read()
+            dst = COQ + '/Gen/' + name
+            old = open(dst).read() if os.path.exists(dst) else ''
+            if new != old:
+                open(dst, 'w').write(new)
+                if run is not None:
+                    run.notes.append('Gen/%s changed with respect to the committed copy; dependent proofs were re-checked' % name)
         return True
     finally:
         shutil.rmtree(tmp, ignore_errors=True)
